@@ -272,11 +272,12 @@ func main() {
 			panic(err)
 		}
 		old := syscall.Umask(umask)
-		sess := drv.NewSess(sb.Export)
+		spelling := crng.Intn(drv.NSpellings)
+		sess := drv.NewSess(sb.Spelling(spelling))
 		tw := newTwin(sb.Twin)
 		g := &gen{rng: crng, tw: tw}
 
-		caseL := []sx.S{sx.Sym("seq"), sx.I(int64(umask))}
+		caseL := []sx.S{sx.Sym("seq"), sx.I(int64(umask)), sx.L(sx.Sym("root"), sx.I(int64(spelling)))}
 		obsL := []sx.S{sx.Sym("obs")}
 		prevTree := ""
 		treeChanged := false
@@ -321,6 +322,13 @@ func main() {
 		}
 
 		exec(drv.Op{Kind: "attach", Fid: 0})
+		if crng.Chance(1, 8) { // the root itself, while the export is still empty
+			exec(drv.Op{Kind: "walk", Fid: 0, NewFid: 1})
+			if crng.Bool() {
+				exec(drv.Op{Kind: "wstat", Fid: 1, Name: []string{"x", "../x", "."}[crng.Intn(3)], WMode: ^uint32(0), WLen: ^uint64(0)})
+			}
+			exec(drv.Op{Kind: "remove", Fid: 1})
+		}
 		n := crng.Range(25, 55)
 		for j := 0; j < n; j++ {
 			exec(g.next())
